@@ -100,7 +100,8 @@ def run(ctx):
                       % (name, tv['invariant'] or 'not a behaviour of FlowLedger.tla', ev, up, ret), {'events': events[:300]})
         start = k + 1
     for n in report.get('notes') or []:
-        raise vf.Inconclusive('driver note: %s' % n)
+        if not ctx.violations:       # a note next to a rejected trace is usually the same thing seen from the driver (e.g. the wait for undelivered data timing out)
+            raise vf.Inconclusive('driver note: %s' % n)
     # the client transport as sender: the fork's Transport uploads to a raw-frame server of the harness (same ledger, roles swapped).
     # A rejection has to repeat in a second recording before it is a verdict (the schedule is seeded, the timing is not).
     taccepted, tscen, tev = 0, 0, 0
